@@ -46,3 +46,215 @@ func H_C05_window() {
 	verif.Assert(verif.Eq(got, want), "window")
 	verif.Reach("end")
 }
+
+var dirs = []string{"", " ASC", " DESC"}
+
+// lessKey reports whether key x sorts strictly before key y in direction d.
+func lessNum(x, y float64, d int) bool {
+	if d == 2 {
+		return x > y
+	}
+	return x < y
+}
+
+// H_C05_order_num: ORDER BY one or two numeric keys with directions: the
+// output is a permutation of the input (by content) in which every adjacent
+// pair respects the key list lexicographically.
+func H_C05_order_num() {
+	n := verif.Choose("rows", maxRows(3, 4)+1)
+	d1 := verif.Choose("dir1", 3)
+	two := verif.Choose("keys", 2)
+	d2 := 0
+	if two == 1 {
+		d2 = verif.Choose("dir2", 3)
+	}
+	doc, rows := numTable(n, "a", "b")
+	// a unique tag per row makes the permutation check exact
+	for i, r := range rows {
+		r["id"] = float64(i)
+	}
+	sql := "SELECT id, a, b FROM t ORDER BY a" + dirs[d1]
+	if two == 1 {
+		sql += ", b" + dirs[d2]
+	}
+	got, ok := runQuery(doc, sql)
+	if !ok {
+		return
+	}
+	verif.Assert(len(got) == n, "count")
+	if len(got) != n {
+		return
+	}
+	seen := make([]bool, n)
+	perm := true
+	for _, g := range got {
+		m, isMap := g.(Map)
+		if !isMap {
+			perm = false
+			break
+		}
+		id, isNum := m["id"].(float64)
+		if !isNum || id < 0 || int(id) >= n || seen[int(id)] {
+			perm = false
+			break
+		}
+		seen[int(id)] = true
+		src := rows[int(id)]
+		if !verif.Eq(g, Map{"id": id, "a": src["a"], "b": src["b"]}) {
+			perm = false
+		}
+	}
+	verif.Assert(perm, "permutation")
+	if !perm {
+		return
+	}
+	sorted := true
+	for i := 0; i+1 < len(got); i++ {
+		x, y := got[i].(Map), got[i+1].(Map)
+		xa, ya := f64of(x["a"]), f64of(y["a"])
+		if lessNum(ya, xa, d1) {
+			sorted = false
+		}
+		if two == 1 && xa == ya && lessNum(f64of(y["b"]), f64of(x["b"]), d2) {
+			sorted = false
+		}
+	}
+	verif.Assert(sorted, "sorted")
+	verif.Reach("end")
+}
+
+// H_C05_order_str: ORDER BY a string key (byte-wise order).
+func H_C05_order_str() {
+	n := verif.Choose("rows", maxRows(3, 3)+1)
+	d := verif.Choose("dir", 3)
+	doc, rows := strTable(n, 2, "", "s")
+	for i, r := range rows {
+		r["id"] = float64(i)
+	}
+	got, ok := runQuery(doc, "SELECT id, s FROM t ORDER BY s"+dirs[d])
+	if !ok {
+		return
+	}
+	verif.Assert(len(got) == n, "count")
+	if len(got) != n {
+		return
+	}
+	seen := make([]bool, n)
+	perm := true
+	for _, g := range got {
+		m := g.(Map)
+		id, isNum := m["id"].(float64)
+		if !isNum || id < 0 || int(id) >= n || seen[int(id)] {
+			perm = false
+			break
+		}
+		seen[int(id)] = true
+		if !verif.Eq(m["s"], rows[int(id)]["s"]) {
+			perm = false
+		}
+	}
+	verif.Assert(perm, "permutation")
+	if !perm {
+		return
+	}
+	sorted := true
+	for i := 0; i+1 < len(got); i++ {
+		x, y := strof(got[i].(Map)["s"]), strof(got[i+1].(Map)["s"])
+		if d == 2 {
+			if x < y {
+				sorted = false
+			}
+		} else if y < x {
+			sorted = false
+		}
+	}
+	verif.Assert(sorted, "sorted")
+	verif.Reach("end")
+}
+
+// H_C05_order_null: rows whose single sort key is NULL come after all rows
+// whose key is non-NULL, in either direction.
+func H_C05_order_null() {
+	n := verif.Choose("rows", maxRows(3, 4)+1)
+	d := verif.Choose("dir", 3)
+	rows := make([]Map, n)
+	arr := make([]any, n)
+	for i := range rows {
+		r := Map{"id": float64(i)}
+		if verif.Choose("null", 2) == 1 {
+			r["a"] = nil
+		} else {
+			x := verif.F64("a")
+			verif.Assume(x == x)
+			r["a"] = x
+		}
+		rows[i], arr[i] = r, r
+	}
+	got, ok := runQuery(Map{"t": arr}, "SELECT id, a FROM t ORDER BY a"+dirs[d])
+	if !ok {
+		return
+	}
+	verif.Assert(len(got) == n, "count")
+	if len(got) != n {
+		return
+	}
+	okOrder := true
+	seenNull := false
+	for i, g := range got {
+		a := g.(Map)["a"]
+		if a == nil {
+			seenNull = true
+			continue
+		}
+		if seenNull {
+			okOrder = false
+		}
+		if i > 0 {
+			if p := got[i-1].(Map)["a"]; p != nil && lessNum(f64of(a), f64of(p), d) {
+				okOrder = false
+			}
+		}
+	}
+	verif.Assert(okOrder, "nulls-last-sorted")
+	verif.Reach("end")
+}
+
+// H_C05_window_sorted: WHERE + ORDER BY + LIMIT/OFFSET in both spellings.
+func H_C05_window_sorted() {
+	n := verif.Choose("rows", maxRows(3, 4)+1)
+	spelling := verif.Choose("spelling", 2)
+	doc, rows := numTable(n, "a")
+	c := verif.F64("c")
+	lim := verif.IntRange("limit", 0, 1<<31-1)
+	off := verif.IntRange("offset", 0, 1<<31-1)
+	var sql string
+	if spelling == 0 {
+		sql = verif.SQL("SELECT a FROM t WHERE a > ? ORDER BY a LIMIT ? OFFSET ?", c, lim, off)
+	} else {
+		sql = verif.SQL("SELECT a FROM t WHERE a > ? ORDER BY a LIMIT ?, ?", c, off, lim)
+	}
+	got, ok := runQuery(doc, sql)
+	if !ok {
+		return
+	}
+	// reference: filter, insertion sort, window
+	var kept []float64
+	for _, r := range rows {
+		if a := f64of(r["a"]); a > c {
+			kept = append(kept, a)
+		}
+	}
+	for i := 1; i < len(kept); i++ {
+		for j := i; j > 0 && kept[j] < kept[j-1]; j-- {
+			kept[j], kept[j-1] = kept[j-1], kept[j]
+		}
+	}
+	var want []any
+	for i, a := range kept {
+		if i >= off && i-off < lim {
+			want = append(want, Map{"a": a})
+		}
+	}
+	verif.Assert(verif.Eq(got, want), "window")
+	verif.Reach("end")
+}
